@@ -352,55 +352,59 @@ void sorted()
   verif_reach("sorted-end");
 }
 
-// ---- mutations: remove / remove_if / unique / unique_if / sequence_iteration
+// ---- mutations: remove / remove_if / unique / unique_if / sequence_iteration (which = the function under test: one per
+// harness, so that the forks of the five references do not multiply)
 template <typename C>
-void mutations()
+void mutations(unsigned const which)
 {
   input const in{fresh_input()};
   unsigned const n{in.n};
-  int keep_p[maxn], keep_v[maxn], uniq[maxn], uniqk[maxn];
-  unsigned nkp{0}, nkv{0}, nu{0}, nuk{0};
-  int const val{static_cast<int>(verif_u32("val"))};
-  for (unsigned i = 0; i < n; ++i)
+  int keep[maxn];
+  unsigned nk{0};
+  C c{build<C>(in)};
+  log_reset();
+  if (which == 0)
   {
-    if (!p_ref(in.v[i])) keep_p[nkp++] = in.v[i];
-    if (in.v[i] != val) keep_v[nkv++] = in.v[i];
-    if (i == 0 || in.v[i] != in.v[i - 1]) uniq[nu++] = in.v[i];
-    if (i == 0 || eqkey(in.v[i]) != eqkey(in.v[i - 1])) uniqk[nuk++] = in.v[i];
-  }
-  verif_out("nkp", nkp);
-  {
-    C c{build<C>(in)};
-    log_reset();
+    for (unsigned i = 0; i < n; ++i)
+      if (!p_ref(in.v[i])) keep[nk++] = in.v[i];
     bool const r{fcppt::algorithm::remove_if(c, [](int const x) { return P(x); })};
-    verif_assert(seq_eq(c, keep_p, nkp), "remove_if: exactly the elements not matching the predicate remain, in order");
-    verif_assert(r == (nkp != n), "remove_if: returns whether something was removed");
+    verif_assert(seq_eq(c, keep, nk), "remove_if: exactly the elements not matching the predicate remain, in order");
+    verif_assert(r == (nk != n), "remove_if: returns whether something was removed");
     verif_assert(g_logn == n, "remove_if: the predicate is applied exactly once per element");
   }
+  else if (which == 1)
   {
-    C c{build<C>(in)};
+    int const val{static_cast<int>(verif_u32("val"))};
+    for (unsigned i = 0; i < n; ++i)
+      if (in.v[i] != val) keep[nk++] = in.v[i];
     bool const r{fcppt::algorithm::remove(c, val)};
-    verif_assert(seq_eq(c, keep_v, nkv), "remove: exactly the elements different from the value remain, in order");
-    verif_assert(r == (nkv != n), "remove: returns whether something was removed");
+    verif_assert(seq_eq(c, keep, nk), "remove: exactly the elements different from the value remain, in order");
+    verif_assert(r == (nk != n), "remove: returns whether something was removed");
   }
+  else if (which == 2)
   {
-    C c{build<C>(in)};
+    for (unsigned i = 0; i < n; ++i)
+      if (i == 0 || in.v[i] != in.v[i - 1]) keep[nk++] = in.v[i];
     fcppt::algorithm::unique(c);
-    verif_assert(seq_eq(c, uniq, nu), "unique: the first element of every run of equal elements remains");
+    verif_assert(seq_eq(c, keep, nk), "unique: the first element of every run of equal elements remains");
   }
+  else if (which == 3)
   {
-    C c{build<C>(in)};
+    for (unsigned i = 0; i < n; ++i)
+      if (i == 0 || eqkey(in.v[i]) != eqkey(in.v[i - 1])) keep[nk++] = in.v[i];
     fcppt::algorithm::unique_if(c, [](int const a, int const b) { return eqkey(a) == eqkey(b); });
-    verif_assert(seq_eq(c, uniqk, nuk), "unique_if: the first element of every run of equivalent elements remains");
+    verif_assert(seq_eq(c, keep, nk), "unique_if: the first element of every run of equivalent elements remains");
   }
+  else
   {
-    C c{build<C>(in)};
-    log_reset();
+    for (unsigned i = 0; i < n; ++i)
+      if (!p_ref(in.v[i])) keep[nk++] = in.v[i];
     fcppt::algorithm::sequence_iteration(
         c, [](int const x) { return P(x) ? fcppt::algorithm::update_action::remove : fcppt::algorithm::update_action::keep; });
-    verif_assert(seq_eq(c, keep_p, nkp), "sequence_iteration: exactly the elements whose action is keep remain, in order");
+    verif_assert(seq_eq(c, keep, nk), "sequence_iteration: exactly the elements whose action is keep remain, in order");
     verif_assert(log_is_prefix(in, n), "sequence_iteration: the action is applied once per element, in order");
   }
+  verif_out("kept", nk);
   verif_reach("mutations-end");
 }
 }
@@ -412,14 +416,15 @@ using fwd = std::forward_list<int>;
 #define H(name, ...) VERIF_HARNESS(name) { __VA_ARGS__; }
 #define ALL(C) H(h_maps_##C, maps<C>()) H(h_searches_##C, searches<C>()) H(h_finds_##C, finds<C>()) H(h_sorted_##C, sorted<C>())
 ALL(vec) ALL(lst) ALL(deq) ALL(fwd)
-H(h_mutations_vec, mutations<vec>()) H(h_mutations_lst, mutations<lst>()) H(h_mutations_deq, mutations<deq>())
+#define MU(C) H(h_removeif_##C, mutations<C>(0)) H(h_remove_##C, mutations<C>(1)) H(h_unique_##C, mutations<C>(2)) H(h_uniqueif_##C, mutations<C>(3)) H(h_seqiter_##C, mutations<C>(4))
+MU(vec) MU(lst) MU(deq)
 //@harness h_maps_{C} for C in vec,lst,deq,fwd param n=0..3 tier=quick loop=80
 //@harness h_searches_{C} for C in vec,lst,deq,fwd param n=0..3 tier=quick loop=80
 //@harness h_finds_{C} for C in vec,lst,deq,fwd param n=0..3 tier=quick loop=80
 //@harness h_sorted_{C} for C in vec,lst,deq,fwd param n=0..3 tier=quick loop=80
-//@harness h_mutations_{C} for C in vec,lst,deq param n=0..3 tier=quick loop=80
+//@harness h_{F}_{C} for F in removeif,remove,unique,uniqueif,seqiter for C in vec,lst,deq param n=0..3 tier=quick loop=80
 //@harness h_maps_{C} for C in vec,lst,deq,fwd param n=4..5 tier=thorough loop=80
 //@harness h_searches_{C} for C in vec,lst,deq,fwd param n=4..5 tier=thorough loop=80
 //@harness h_finds_{C} for C in vec,lst,deq,fwd param n=4..5 tier=thorough loop=80
 //@harness h_sorted_{C} for C in vec,lst,deq,fwd param n=4..5 tier=thorough loop=80
-//@harness h_mutations_{C} for C in vec,lst,deq param n=4..5 tier=thorough loop=80
+//@harness h_{F}_{C} for F in removeif,remove,unique,uniqueif,seqiter for C in vec,lst,deq param n=4..5 tier=thorough loop=80
